@@ -71,7 +71,7 @@ def targets():
     ]
 
 
-STAGES = [['C01_routes.v'], ['C01.v']]
+STAGES = [['C01_routes.v'], ['C01_nonunit.v'], ['C01.v']]
 
 
 # ------------------------------------------------------------------------------------------
